@@ -19,6 +19,7 @@ import Cog.Closed.PrefixReplace
 import Cog.Closed.UnspecDup
 import Cog.Closed.Seq
 import Cog.Closed.FilterProofs
+import Cog.Closed.Chains
 namespace Cog.Closed
 open Cog.IR Cog.Xform
 
@@ -286,5 +287,64 @@ example : closed (W.two (W.ref "Foo")) = true ∧ dotFree (W.two (W.ref "Foo")) 
     (match FilterSchemas.run [("p", "Foo")] (W.two (W.ref "Foo")) with
       | .ok S' => keptIn S' ("p", "Foo") && !keptIn S' ("p", "Bar")
       | _ => false) = true := by decide
+
+/-! ## the built-in transformation chains of the output languages
+
+The pass lists are the REGENERATED `Cog.Gen.Chains` (extracted from internal/jennies/*/jennies.go on
+every run); the per-pass lemmas are in Cog/Closed/{ChainPasses,AnonStructs}.lean over the pass
+models of Cog/Passes.  Carried invariant: `Closed` and pairwise distinct package names. -/
+
+open Cog.Passes in
+/-- FULL statement for one chain: it never turns a resolving reference into a dangling one -/
+def C05_chain_full (chain : List PassId) : Prop :=
+  ∀ (S S' : Schemas), Closed S → (S.map (·.pkg)).Nodup → runChain chain S = .ok S' → Closed S'
+
+open Cog.Passes in
+/-- any chain made of passes with a proved preservation lemma (`provenPass`, decidable) keeps
+    every reference resolving — induction over the chain -/
+theorem C05_chain_preserves_of_proven (chain : List PassId) (h : ∀ p ∈ chain, provenPass p = true) :
+    C05_chain_full chain :=
+  fun S S' hc hup hr => (chain_keeps chain (fun p hp => proven_keeps p (h p hp)) S S' ⟨hc, hup⟩ hr).1
+
+open Cog.Passes in
+/-- composition as far as the lemmas go: a chain keeps every reference resolving if its passes
+    WITHOUT a proved lemma do -/
+theorem C05_chain_preserves_modulo (chain : List PassId)
+    (h : ∀ p ∈ chain, provenPass p = false → passKeeps p.run) : C05_chain_full chain :=
+  fun S S' hc hup hr => (chain_keeps chain (fun p hp => by
+    cases hpp : provenPass p with
+    | true => exact proven_keeps p hpp
+    | false => exact h p hp hpp) S S' ⟨hc, hup⟩ hr).1
+
+/-- TypeScript: full statement -/
+theorem C05_chain_preserves_typescript : C05_chain_full Cog.Gen.Chains.typescriptChain :=
+  C05_chain_preserves_of_proven _ (by decide)
+
+/-- Python: full statement -/
+theorem C05_chain_preserves_python : C05_chain_full Cog.Gen.Chains.pythonChain :=
+  C05_chain_preserves_of_proven _ (by decide)
+
+/-- the jsonschema and openapi output languages (DisjunctionWithNullToOptional, InferEntrypoint): full statement -/
+theorem C05_chain_preserves_schema_languages (S S' : Schemas) (hc : Closed S) (hup : (S.map (·.pkg)).Nodup)
+    (h : schemaLangChain S = .ok S') : Closed S' :=
+  (schemaLangChain_keeps S S' ⟨hc, hup⟩ h).1
+
+/-- PHP: the full statement is false — InlineObjectsWithTypes leaves a reference to an inlined
+    (dropped) object inside a copy it does not visit, depending on declaration order -/
+theorem C05_chain_counterexample_php : ¬ C05_chain_full Cog.Gen.Chains.phpChain := by
+  intro hfull
+  have := hfull (W.phpOrder true) _ (by decide) (by decide) rfl
+  revert this; decide
+
+/-- the same objects declared in the other order come out Closed -/
+example : (match Cog.Passes.runChain Cog.Gen.Chains.phpChain (W.phpOrder false) with
+    | .ok S' => closed S' | _ => false) = true := by decide
+
+/-- Java: the full statement is false — RemoveIntersections removes a struct that a bare alias
+    points to and redirects only the references held directly by struct fields -/
+theorem C05_chain_counterexample_java : ¬ C05_chain_full Cog.Gen.Chains.javaChain := by
+  intro hfull
+  have := hfull W.javaAlias _ (by decide) (by decide) rfl
+  revert this; decide
 
 end Cog.Closed
